@@ -1575,3 +1575,24 @@ Lemma validation_nonvacuous :
      | _ => False
      end.
 Proof. split; [exact example_names_ok|exact example_accepted]. Qed.
+
+Lemma value_pass_total_res fuel f incs :
+  file_names_ok f -> incs_wellvalidated incs -> (validate_fuel f incs <= fuel)%nat ->
+  cvalidate_decls fuel f incs = ROk ->
+  graceful (vr_res (check_values fuel f incs)).
+Proof.
+  intros Hn Hi Hf Hd. apply vgraceful_res. apply check_values_graceful.
+  destruct Hn as (_ & _ & Hn). eapply home_scope_ok; eauto.
+Qed.
+
+Lemma values_example_full :
+  match cparse_program vx_fs [T "root.frugal"] with
+  | POk (FTree _ f incs) => cvalidate (validate_fuel f incs) f incs = ROk /\ length (fr_constants f) = 7%nat
+                            /\ values_conform f incs
+  | _ => False
+  end.
+Proof.
+  pose proof values_example_accepted as H1. pose proof values_example_conform as H2.
+  destruct (cparse_program vx_fs [T "root.frugal"]) as [[n f incs]| | |]; try contradiction.
+  destruct H1 as [A B]. auto.
+Qed.
